@@ -6,9 +6,15 @@ from props import c09_eproc
 THEOREMS = ["Slock.C09." + t for t in (
     # ring buffer: all guarded operation sequences of any length (induction), + witnesses that the guard is needed
     "reachable_inv C09_no_gap_partial C09_no_gap_fails C09_out_of_buf_partial C09_out_of_buf_fails C09_search C09_buffer_is_suffix "
-    # handshake model: counterexamples to the full statement, and what is proved
-    "C09_resync_fails_early_cut C09_resync_fails_empty_buffer C09_resume_partial C09_full_partial C09_resync_partial "
-    "C09_push_keeps_stream C09_converge_partial").split()]
+    # handshake model: invariant for all guarded event sequences of any length (induction), prefix + convergence theorems
+    "C09_sync_inv C09_resync C09_converge "
+    # each guard is needed (decide on the executable model; each sequence fails SGuarded exactly at the guarded event)
+    "C09_resync_fails_early_cut C09_resync_fails_empty_buffer C09_resync_fails_stale_addpoll "
+    # per-step statements kept from the first round
+    "C09_resume_partial C09_full_partial C09_resync_partial C09_push_keeps_stream C09_converge_partial").split()] + [
+    # one step lemma per event kind + the induction
+    "Slock.Repl." + t for t in ("append_step connect_step start_step deliverFiles_step deliverStream_step cut_step restartSame_step "
+                                "restartEmpty_step sstep_inv srun_inv sinv_prefix sinv_converge").split()]
 
 # The Lean witnesses, replayed on the REAL queue on every run (mode replreplay): `staleOps` of C09_no_gap_fails /
 # C09_out_of_buf_fails followed by three pops, and `demoOps` (the satisfiability example) followed by two pops.
@@ -60,6 +66,13 @@ FINISH = {"level": "proof", "assumptions": [
     "reading of handleInitSync / sendFiles / SendProcess / sendSyncCommand / InitSync / recvFiles, tied at process level: the connect "
     "DECISION (full / resume after R / not-found) is compared with the real leader's on every observed handshake, and the END STATE "
     "(follower holds = leader holds at quiescence) is checked on real processes after restarts and cuts",
+    "handshake model theorems (C09_sync_inv / C09_resync / C09_converge) hold for event sequences of any length under the decidable guards "
+    "EvOk: AddGuard at `start` (cursor's item not recycled between handshake and \"started\"), CutGuard at `cut` (a live follower reports the id "
+    "of the last record it applied — false only between \"started\" of a transfer from scratch and its first record), FreshGuard at stream "
+    "`deliver` (a cursor without position pops while record 1 is buffered), < 2^64-1 records, < 2^32-1 starts; each guard has a `decide` "
+    "counterexample showing it is needed; that RemovePoll only undoes an AddPoll is proved (pollCount = registered channels)",
+    "assumed away in the handshake model: LoadAofFile's per-record expiry filter (the file phase transfers every record with id < H, i.e. no "
+    "record's own deadline passes during the run) — its effect is the process-level finding `expired-record`",
     "still model-only: the per-event semantics between handshake and quiescence (file phase record by record, `deliver`, the cursor's position "
     "inside the real leader) are not compared step by step — only their outcome is; the empty-buffer counterexample "
     "(C09_resync_fails_empty_buffer) needs > ring-buffer-max of traffic during a file phase and is not provoked at process level; "
